@@ -71,3 +71,26 @@ func TestC03AfterFailedRun(t *testing.T) {
 		return genHistory(rt, GenOpts{Dups: true, MaxSpan: 40, OwnWindow: true})
 	}, checkHistory(checkC03Protocol))
 }
+
+// The same histories judged for the other per-hop properties: an entry left behind by the failed run would hide a
+// genuine reply of the second run (C02), carry a destination flag (C04) or a round-trip time (C05) of its own.
+func TestC02AfterFailedRun(t *testing.T) {
+	rec := NewRecorder("C02", "C02AfterFailedRun", "rapid histories of two runs in one process (a run that fails part-way after replies were recorded, then a generated scenario with non-canonical reply forms over the same TTL range), the second judged like a run on its own: every genuine reply read in its window shows as a hop; non-trivial as in C02")
+	RunProp(t, rec, func(rt *rapid.T) *historyCase {
+		return genHistory(rt, GenOpts{Forms: true, Dups: true, MaxSpan: 40, OwnWindow: true})
+	}, checkHistory(checkC02))
+}
+
+func TestC04AfterFailedRun(t *testing.T) {
+	rec := NewRecorder("C04", "C04AfterFailedRun", "rapid histories of two runs in one process (a run that fails part-way after replies, possibly the destination's, were recorded, then a generated scenario with wrong-place destination-form replies over the same TTL range), the second judged like a run on its own; non-trivial as in C04")
+	RunProp(t, rec, func(rt *rapid.T) *historyCase {
+		return genHistory(rt, GenOpts{Noise: 4, Forms: true, WrongPlace: true, Dups: true, MaxSpan: 30, OwnWindow: true})
+	}, checkHistory(checkC04))
+}
+
+func TestC05AfterFailedRun(t *testing.T) {
+	rec := NewRecorder("C05", "C05AfterFailedRun", "rapid histories of two runs in one process (a run that fails part-way after replies were recorded and timed, then a generated scenario with other delays over the same TTL range), the second judged like a run on its own: every RTT is arrival minus send of the same probe of this run; non-trivial as in C05")
+	RunProp(t, rec, func(rt *rapid.T) *historyCase {
+		return genHistory(rt, GenOpts{Dups: true, MaxSpan: 30, BigDelay: true})
+	}, checkHistory(checkC05))
+}
